@@ -381,7 +381,7 @@ pub fn download(out: &mut Out, start: Instant, d: &Dl, r: &mut Rng, xid: u64) {
         let (o, _) = h.ireq(out, ep, &pkt, &json!({"x": xid, "kind": "dl-after"}));
         after_release = o;
     }
-    out.ev(json!({"op": "xfer2", "x": xid, "M": d.m, "body": jbytes(&body), "assembled": jbytes(&assembled), "app_calls": app_calls,
+    out.ev(json!({"op": "xfer2", "x": xid, "M": d.m.min(i32::MAX as usize), "body": jbytes(&body), "assembled": jbytes(&assembled), "app_calls": app_calls,
                   "done": done, "aborted": aborted, "after": after_release,
                   "cfg": {"first": d.first_szx.map(|x| x as i64).unwrap_or(-1), "reduce": d.reduce.map(|x| x.1 as i64).unwrap_or(-1), "optset": d.optset}}));
 }
@@ -491,7 +491,7 @@ pub fn upload(out: &mut Out, start: Instant, u: &Ul, r: &mut Rng, xid: u64) {
             }
         }
     }
-    out.ev(json!({"op": "xfer1", "x": xid, "M": u.m, "body": jbytes(&body), "delivered": delivered, "aborted": aborted,
+    out.ev(json!({"op": "xfer1", "x": xid, "M": u.m.min(i32::MAX as usize), "body": jbytes(&body), "delivered": delivered, "aborted": aborted,
                   "cfg": {"szx": u.szx, "abandoned": u.abandoned, "follow": u.follow}}));
 }
 
@@ -533,7 +533,8 @@ pub fn rec_block2(args: &Args) {
             3 => r.below(if thorough { 20000 } else { 3000 }) as usize,
             _ => r.below(200) as usize,
         };
-        let mut d = Dl { body_len, m: 1152, first_szx: szx_pick, reduce: None, optset: r.below(6) as u8, toklen: r.below(9) as usize, segs: r.pick(&segs).clone(), typ: r.below(2), prior: 0, reqopts: r.below(5) as u8 };
+        let big_m = if i % 9 == 4 { *r.pick(&[usize::MAX, 1usize << 40, 1usize << 32]) } else { 1152 };
+        let mut d = Dl { body_len, m: big_m, first_szx: szx_pick, reduce: None, optset: r.below(6) as u8, toklen: r.below(9) as usize, segs: r.pick(&segs).clone(), typ: r.below(2), prior: 0, reqopts: r.below(5) as u8 };
         if r.chance(1, 4) {
             d.reduce = Some((r.range(1, 3) as usize, r.below(4) as u8));
         }
@@ -589,10 +590,14 @@ pub fn rec_block1(args: &Args) {
         // budget that admits the client's block size: overhead of the request + 12 + block
         let probe = mkreq(&ReqSpec { code: 3, typ: 0, mid: 0, tok: vec![0; toklen], segs: &sg, b1: Some((300, true, szx)), b2: None, pay: vec![], extra: vec![] });
         let ov = probe.to_bytes_unlimited().unwrap().len();
-        let m = match r.below(3) { 0 => 1280usize.max(ov + 12 + bs), 1 => ov + 12 + bs + r.below(40) as usize, _ => (ov + 12 + bs).max(1152) };
+        let mut m = match r.below(3) { 0 => 1280usize.max(ov + 12 + bs), 1 => ov + 12 + bs + r.below(40) as usize, _ => (ov + 12 + bs).max(1152) };
+        // "no limit" configurations admit every block size too
+        if i % 9 == 4 {
+            m = *r.pick(&[usize::MAX, usize::MAX - 1, 1usize << 40, 1usize << 32, (1usize << 31) + 5]);
+        }
         let dups: Vec<usize> = match r.below(4) { 0 => vec![1], 1 => vec![2], 2 => vec![1, 3, 1, 2], _ => vec![3, 1] };
         let abandoned = if r.chance(1, 2) { r.below(7) as usize } else { 0 };
-        let u = Ul { body_len, szx, m, dups, abandoned, abandoned_len: bs * 7 + 5, toklen, segs: sg, follow: false, grow: 0, reply_len: match r.below(3) { 0 => 0, 1 => r.below(20) as usize, _ => m + r.below(300) as usize }, reply_optset: r.below(6) as u8, b2hint: if r.chance(1, 4) { Some(r.below(7) as u8) } else { None }, empty_final: i % 4 == 2 && r.chance(1, 2) };
+        let u = Ul { body_len, szx, m, dups, abandoned, abandoned_len: bs * 7 + 5, toklen, segs: sg, follow: false, grow: 0, reply_len: match r.below(3) { 0 => 0, 1 => r.below(20) as usize, _ => m.min(1280) + r.below(300) as usize }, reply_optset: r.below(6) as u8, b2hint: if r.chance(1, 4) { Some(r.below(7) as u8) } else { None }, empty_final: i % 4 == 2 && r.chance(1, 2) };
         xid += 1;
         upload(&mut out, start, &u, &mut r, xid);
     }
